@@ -2,6 +2,7 @@
    Only theorem statements live here; each is closed by a lemma of ReplayDetector/*Proofs.v. *)
 From Tx Require Import Common.Base ReplayDetector.Model ReplayDetector.Spec
   ReplayDetector.PlainProofs ReplayDetector.WrapProofs.
+From Tx Require ReplayDetector.Words.
 
 (* Plain detector, every window size and every maximum (uint64), every history:
    if operation i checked [seq] successfully and invoked the callback, every later check of
@@ -67,3 +68,31 @@ Example C04_wrap_example :
   map fst (w_run c w_init_state [(65534, true); (2, true); (65534, true); (65533, true); (65533, true); (2, true)])
   = [true; true; false; true; false; false].
 Proof. split; [unfold cfg_ok; simpl; lia|vm_compute; reflexivity]. Qed.
+
+
+(* The window bitmap as the code stores it - 64-bit words with the word-by-word shift of fixedBigInt.Lsh, the top word
+   masked to the window size - computes exactly the integer bitmap the detector theorems above are about: for every
+   window size, every shift distance, every bit index. (ReplayDetector/Words.v; the word-level model is itself compared
+   with fixedBigInt on every run.) *)
+Theorem C04_words_refine_bitmap : forall f, Words.WF f ->
+  (forall i, 0 <= i -> Words.fbi_bit f i = b2z (mbit (Words.f_n f) (Words.val (Words.f_bits f)) i)) /\
+  (forall i, 0 <= i -> Words.WF (Words.fbi_set f i) /\
+                       Words.val (Words.f_bits (Words.fbi_set f i)) = mset (Words.f_n f) (Words.val (Words.f_bits f)) i) /\
+  (forall k, 0 <= k -> Words.WF (Words.fbi_lsh f k) /\
+                       Words.val (Words.f_bits (Words.fbi_lsh f k)) = mlsh (Words.f_n f) (Words.val (Words.f_bits f)) k).
+Proof.
+  intros f Hf. split; [|split].
+  - intros i Hi. apply Words.fbi_bit_spec; assumption.
+  - intros i Hi. apply Words.fbi_set_spec; assumption.
+  - intros k Hk. apply Words.fbi_lsh_spec; assumption.
+Qed.
+Print Assumptions C04_words_refine_bitmap.
+
+Theorem C04_new_bitmap_wellformed : forall n, 0 <= n -> Words.WF (Words.fbi_new n) /\ Words.val (Words.f_bits (Words.fbi_new n)) = 0.
+Proof. intros n Hn. split; [apply Words.wf_new; assumption|apply Words.val_repeat0]. Qed.
+Print Assumptions C04_new_bitmap_wellformed.
+
+Example C04_words_example :
+  Words.fbi_model_run [2; 100; 0] [[2; 0]; [1; 70]; [3; 70]; [2; 99]; [1; 1]; [3; 71]; [3; 99]]
+  = [[1; 0]; [0; 64]; [1]; [0; 34359738432]; [0; 128]; [1]; [0]].
+Proof. vm_compute. reflexivity. Qed.
